@@ -232,6 +232,8 @@ pub struct World {
     pub identity: Oid,
     /// Number of `store` calls (including grinding attempts).
     pub stores: u64,
+    /// Time spent in `store`, microseconds.
+    pub store_us: u64,
     /// Number of evaluations (`cob::get` / `cob::list`).
     pub evals: u64,
 }
@@ -264,7 +266,7 @@ impl World {
                 (patch::TYPENAME.clone(), *p.id())
             }
         };
-        World { kind, node, repo, stranger, forger, namespaces, type_name, object, identity, stores: 0, evals: 0 }
+        World { kind, node, repo, stranger, forger, namespaces, type_name, object, identity, stores: 0, store_us: 0, evals: 0 }
     }
 
     pub fn repository(&self) -> &Repository {
@@ -354,6 +356,7 @@ impl World {
 
     /// Write one raw change commit (no evaluation, no reference).
     pub fn store(&mut self, parents: &[Oid], ts: u64, actions: &[Vec<u8>], author: u8, nonce: u64) -> Oid {
+        let _t = std::time::Instant::now();
         std::env::set_var("GIT_COMMITTER_DATE", (BASE_TS + ts).to_string());
         let contents = NonEmpty::from_vec(actions.to_vec()).expect("non-empty actions");
         let template = Template {
@@ -372,6 +375,7 @@ impl World {
         }
         .expect("store change");
         self.stores += 1;
+        self.store_us += _t.elapsed().as_micros() as u64;
         entry.id
     }
 
@@ -387,11 +391,13 @@ impl World {
                 let parents: Vec<Oid> = c.deps.iter().map(|d| oids[*d].expect("parent created")).collect();
                 let tgt = if c.cls == "needs" { oids[c.tgt] } else { None };
                 let (actions, author) = self.actions(&c.cls, k, tgt);
-                let fits = |oid: Oid, oids: &Vec<Option<Oid>>| {
-                    (1..=g.m()).all(|j| match oids[j] {
-                        Some(o) if j != k => (oid < o) == (k < j),
-                        _ => true,
-                    })
+                // Change k gets an id in the k-th of M equal slices of the id space (by leading
+                // byte): the ids are then ordered like the labels, and every attempt succeeds with
+                // probability 1/M whatever ids were drawn before (no heavy tail).
+                let m = g.m();
+                let fits = |oid: Oid, _oids: &Vec<Option<Oid>>| {
+                    let b = git2::Oid::from(oid).as_bytes()[0] as usize;
+                    b * m / 256 + 1 == k
                 };
                 // Grinding: the first commit is written with nonce 0; if its id does not fit, the
                 // id of the commit for every other nonce is *computed* from its raw bytes (the
@@ -792,6 +798,17 @@ pub fn run_sharded(cases: &[Value], procs: usize, child_mode: &str, extra: &[Str
     }
     o.emit(&Value::Object(s));
     o.finish();
+}
+
+/// The object writes of libgit2 allocate and free a few hundred KB each; with glibc's default trim
+/// threshold every one of them grows and shrinks the heap (`brk`), which is very slow on this kind
+/// of virtual machine. Keep the memory.
+pub fn tune_malloc() {
+    unsafe {
+        libc::mallopt(libc::M_TRIM_THRESHOLD, 1 << 30);
+        libc::mallopt(libc::M_TOP_PAD, 64 << 20);
+        libc::mallopt(libc::M_MMAP_THRESHOLD, 1 << 30);
+    }
 }
 
 /// Called first by child engine processes: die with the parent (no stray processes when the
